@@ -89,7 +89,27 @@ def stored_arrays(I, result, ctx):
     return out
 
 
+def rule_b_union(prog, rep):
+    """union_update documents 'make a copy of other[coords] if coords not in self': the wrapper union(None, right)
+    hands back `right` itself unless copy_right is set (or the value is copied on the way into the index)."""
+    fi = prog.func("iindexes", "iindex.union_update")
+    I = Interp(prog, hints.param_types_for("iindexes"), hints.FIELD_TYPES, inline=False)
+    I.run(fi)
+    us = [e for e in I.events if e.kind == "call" and e["name"] == "set_operations:union" and not e.stack]
+    sets = [e for e in I.events if e.kind == "call" and e["method"] == "set_if" and not e.stack]
+    if len(us) != 1 or len(sets) != 1:
+        rep.undecided("R-C06-b", fi.fq, "union_update: the operand's array is copied for a new key", "expected one union(...) fed to one set_if(...), found %d / %d" % (len(us), len(sets)))
+        return
+    cr = dict(us[0]["kwargs"]).get("copy_right", us[0]["args"][3] if len(us[0]["args"]) > 3 else tm.FALSE)
+    sc = dict(sets[0]["kwargs"]).get("copy", sets[0]["args"][2] if len(sets[0]["args"]) > 2 else tm.TRUE)
+    ok = cr == tm.TRUE or sc == tm.TRUE
+    rep.check(ok, "R-C06-b", "%s@%d" % (fi.fq, us[0].line), "union_update: the operand's array is copied for a new key", "copy_right=True (or set_if copies)",
+              "union(None, rows) returns the operand's own array and set_if(copy=False) stores it: the index shares storage with the argument",
+              witness={"inputs": "idx.union_update({(9,): rows}); rows[0] = 12345 changes idx[(9,)]"})
+
+
 def rule_b(prog, rep):
+    rule_b_union(prog, rep)
     cases = [("iindex.copy", None), ("iindex.reindexed", "copy"), ("column_stack", "copy"), ("iindex.set_if", "copy")]
     n = 0
     for qual, flag in cases:
